@@ -171,6 +171,17 @@ def main(tier: str, seed: int) -> int:
                         f'{msg} on {json.dumps(t)[:400]}',
                         {'kind': 'replay', 'colocate': t['colocate'],
                          'msg': msg.split(':')[0]}, replay={'tuple': tp})
+    # purity across interpreters: ranks are separate processes with their own
+    # string hash seed; use the tie-rich tuples
+    def ties(tp):
+        tot = [sum(x['c'] for x in l['fs']) for l in tp['t']['work']]
+        return len(tot) >= 2 and len(set(tot)) < len(tot)
+    tie_tuples = [tp for tp in tuples if ties(tp)]
+    import random as _r
+    _r.Random(seed).shuffle(tie_tuples)
+    msg = assign.cross_interpreter(tie_tuples[:400 if tier == 'quick' else 5000])
+    if msg:
+        v.violation(msg, {'kind': 'hashseed'})
     nrand, rbad = random_instances(3000 if tier == 'quick' else 60000, seed)
     for b in rbad[:5]:
         v.violation(f'property clause fails on random instance: {b["msg"]}',
